@@ -10,20 +10,20 @@ import (
 )
 
 const (
-	oidcPkg   = "github.com/coreos/go-oidc/v3/oidc"
-	oauthPkg  = "golang.org/x/oauth2"
-	cachePkg  = "github.com/patrickmn/go-cache"
-	sessPkg   = "github.com/gorilla/sessions"
+	oidcPkg  = "github.com/coreos/go-oidc/v3/oidc"
+	oauthPkg = "golang.org/x/oauth2"
+	cachePkg = "github.com/patrickmn/go-cache"
+	sessPkg  = "github.com/gorilla/sessions"
 )
 
 func init() {
 	register(&Property{
-		ID:        "C13",
-		Title:     "A session becomes authenticated only through a verified OpenID login",
-		DesignRef: "DESIGN.md §3 C13",
-		Technique: "checked must-pass-through chain on OIDC.HandleCallback (edge-cut reachability, go/ssa) + who-may-call inventory of SetAuthenticated/SaveSessionIdentity + value origin of the state key + sibling agreement of the identity gob mirror",
-		LevelText: "Static: in HandleCallback, marking the identity authenticated and saving it are reachable only over: state found in the gateway's own state store, code exchange succeeded, id_token present, ID token verified, claims decoded, and a non-empty user name taken from those verified claims (which is the name stored). Only the callback, the Basic/NTLM middleware and the SPNEGO transposition ever set the authenticated flag; only the callback and the fresh-session path of EnrichContext save identities. State keys are 16 bytes from crypto/rand with a checked error, stored with the default expiry of a store built with a constant <= 2 min. The verifier configuration sets ClientID and none of the Skip* options. Both session stores get an authentication and an encryption key behind len >= 32 guards. Marshal and Unmarshal of the identity copy the same set of fields both ways.",
-		LevelNote: "Trusted: go-oidc Verify (signature, issuer, audience, expiry), oauth2 Exchange, gorilla securecookie/sessions (MAC + encryption of cookie values), encoding/gob. Not decided: cookie mutation resistance as such (library).",
+		ID:          "C13",
+		Title:       "A session becomes authenticated only through a verified OpenID login",
+		DesignRef:   "DESIGN.md §3 C13",
+		Technique:   "checked must-pass-through chain on OIDC.HandleCallback (edge-cut reachability, go/ssa) + who-may-call inventory of SetAuthenticated/SaveSessionIdentity + value origin of the state key + sibling agreement of the identity gob mirror",
+		LevelText:   "Static: in HandleCallback, marking the identity authenticated and saving it are reachable only over: state found in the gateway's own state store, code exchange succeeded, id_token present, ID token verified, claims decoded, and a non-empty user name taken from those verified claims (which is the name stored). Only the callback, the Basic/NTLM middleware and the SPNEGO transposition ever set the authenticated flag; only the callback and the fresh-session path of EnrichContext save identities. State keys are 16 bytes from crypto/rand with a checked error, stored with the default expiry of a store built with a constant <= 2 min. The verifier configuration sets ClientID and none of the Skip* options. Both session stores get an authentication and an encryption key behind len >= 32 guards. Marshal and Unmarshal of the identity copy the same set of fields both ways.",
+		LevelNote:   "Trusted: go-oidc Verify (signature, issuer, audience, expiry), oauth2 Exchange, gorilla securecookie/sessions (MAC + encryption of cookie values), encoding/gob. Not decided: cookie mutation resistance as such (library).",
 		Explanation: "C13/callback-chain deletes, for each required step, the CFG edges on which that step succeeded and demands that SetAuthenticated(true) and SaveSessionIdentity become unreachable; argument shapes tie each step to the previous one's result. C13/who-authenticates inventories all call sites. C13/state follows the state key to crypto/rand. C13/verifier-config reads the oidc.Config literal. C13/store checks the key guards in InitStore. C13/mirror compares the field maps of Marshal and Unmarshal.",
 		Assumptions: []string{"go-oidc's IDTokenVerifier.Verify checks signature, issuer, audience (ClientID) and expiry unless a Skip* option is set"},
 		Rules: []RuleDef{
@@ -196,10 +196,10 @@ func c13CallbackChain(c *Ctx) {
 func c13WhoAuthenticates(c *Ctx) {
 	rule := "C13/who-authenticates"
 	allowedAuth := map[string]string{
-		"(*cmd/rdpgw/web.OIDC).HandleCallback":            "verified OpenID callback (C13/callback-chain)",
-		"(*cmd/rdpgw/web.BasicAuthHandler).BasicAuth$1":   "Basic middleware after backend confirmation (C05)",
-		"(*cmd/rdpgw/web.NTLMAuthHandler).NTLMAuth$1":     "NTLM middleware after backend confirmation (C05)",
-		"cmd/rdpgw/web.TransposeSPNEGOContext$1":          "copies the SPNEGO library's verdict",
+		"(*cmd/rdpgw/web.OIDC).HandleCallback":          "verified OpenID callback (C13/callback-chain)",
+		"(*cmd/rdpgw/web.BasicAuthHandler).BasicAuth$1": "Basic middleware after backend confirmation (C05)",
+		"(*cmd/rdpgw/web.NTLMAuthHandler).NTLMAuth$1":   "NTLM middleware after backend confirmation (C05)",
+		"cmd/rdpgw/web.TransposeSPNEGOContext$1":        "copies the SPNEGO library's verdict",
 	}
 	for _, fn := range c.allFirstPartyFuncs() {
 		sf := shortFn(fn)
@@ -282,27 +282,8 @@ func c13State(c *Ctx) {
 				continue
 			}
 			k := "stateStore.Set in " + sf
-			// key = hex.EncodeToString(seed); seed filled by crypto/rand.Read with checked error
-			good, why := false, "key is not hex.EncodeToString(seed)"
-			if enc, ok := strip(arg(call, 0)).(*ssa.Call); ok && calleeName(enc) == "encoding/hex.EncodeToString" {
-				seed := strip(arg(enc, 0))
-				why = "seed is not filled by crypto/rand.Read"
-				for _, rc := range callsTo(fn, "crypto/rand.Read") {
-					if strip(arg(rc, 0)) == seed {
-						why = "seed shorter than 16 bytes"
-						if n, ok := constSliceLen(seed); ok {
-							if n >= 16 {
-								ok2, w := mustPass(fn, call, GErrNil(resultOf(rc, 1)))
-								if ok2 && dominatesInstr(rc.(ssa.Instruction), enc) {
-									good = true
-								} else {
-									why = "rand.Read's error does not gate the state: " + w
-								}
-							}
-						}
-					}
-				}
-			}
+			// key = hex.EncodeToString(seed); seed filled by crypto/rand.Read with checked error (possibly in a helper)
+			good, why := randomHexKey(fn, arg(call, 0), call, 0)
 			c.Check(good, rule, k+" key", call.Pos(), "state = hex of >=16 bytes from crypto/rand.Read, error checked", why)
 			if d, ok := constInt(arg(call, 2)); ok && d == 0 {
 				c.OK(rule, k+" expiry", call.Pos(), "stored with the store's default expiration")
@@ -533,4 +514,68 @@ func constSliceLen(v ssa.Value) (int64, bool) {
 		}
 	}
 	return 0, false
+}
+
+// randomHexKey: v is hex.EncodeToString of >= 16 bytes filled by crypto/rand.Read whose error
+// gates `at` — directly in fn, or inside a first-party helper whose nil-error returns satisfy
+// the same condition and whose error gates `at`.
+func randomHexKey(fn *ssa.Function, v ssa.Value, at ssa.Instruction, depth int) (bool, string) {
+	v = strip(v)
+	if enc, ok := v.(*ssa.Call); ok && calleeName(enc) == "encoding/hex.EncodeToString" {
+		seed := strip(arg(enc, 0))
+		for _, rc := range callsTo(fn, "crypto/rand.Read") {
+			if strip(arg(rc, 0)) != seed {
+				continue
+			}
+			n, ok := constSliceLen(seed)
+			if !ok || n < 16 {
+				return false, "seed shorter than 16 bytes"
+			}
+			if ok2, w := mustPass(fn, at, GErrNil(resultOf(rc, 1))); !ok2 {
+				return false, "rand.Read's error does not gate the state: " + w
+			}
+			if !dominatesInstr(rc.(ssa.Instruction), enc) {
+				return false, "the seed is encoded before it is filled"
+			}
+			return true, ""
+		}
+		return false, "seed is not filled by crypto/rand.Read"
+	}
+	if depth < 2 {
+		var call *ssa.Call
+		idx := 0
+		switch x := v.(type) {
+		case *ssa.Extract:
+			call, _ = x.Tuple.(*ssa.Call)
+			idx = x.Index
+		case *ssa.Call:
+			call = x
+		}
+		if call != nil {
+			if h := call.Call.StaticCallee(); h != nil && IsFirstParty(h) && h.Blocks != nil {
+				ei := errIndex(call)
+				if ei < 0 {
+					return false, "helper " + h.Name() + " cannot report a failing random source"
+				}
+				if ok, w := mustPass(fn, at, GErrNil(resultOf(call, ei))); !ok {
+					return false, "the helper's error does not gate the state: " + w
+				}
+				n := 0
+				for _, r := range returnsOf(h) {
+					if !isNil(unspill(r.Results[ei])) {
+						continue
+					}
+					n++
+					if ok, w := randomHexKey(h, r.Results[idx], r, depth+1); !ok {
+						return false, "in helper " + h.Name() + ": " + w
+					}
+				}
+				if n == 0 {
+					return false, "helper " + h.Name() + " never succeeds"
+				}
+				return true, ""
+			}
+		}
+	}
+	return false, "key is not hex.EncodeToString(seed)"
 }
